@@ -3,7 +3,9 @@ package cachekey
 import (
 	"fmt"
 	"go/ast"
+	"go/token"
 	"go/types"
+	"strings"
 
 	"gtsverif/core"
 )
@@ -185,5 +187,80 @@ func Key10(p *core.Prog, r *core.Report) {
 		r.Bad("KEY-10", fn+"|hash", p.Pos(copyIn.Pos()), "a path reaches the hashing copy with d.infile still the inherited standard input: it is hashed from its current offset but rewound to offset 0, so a cached run processes bytes an uncached run never sees (and stores the result under the digest of the remainder)")
 	} else {
 		r.Ok("KEY-10", fn+"|hash", p.Pos(copyIn.Pos()), "standard input is always replaced by its rewound temporary copy before the hashing")
+	}
+}
+
+// Key11 decides KEY-11 (CACHE-DEGRADE) on (*ioDelegate).TryCache: a failure of
+// the cache machinery itself - no usable cache directory, no temporary file, no
+// entry, an entry that cannot be created - is never the error TryCache
+// returns. `--no-cache` does not touch any of that and succeeds, so the cached
+// run must carry on without the cache instead of failing.
+func Key11(p *core.Prog, r *core.Report) {
+	r.Rule("KEY-11", "in TryCache the error results of the cache machinery (gtsCacheDir, ioutil.TempFile/os.CreateTemp, cache.Open, cache.Create/CreateLevel) never reach a return of TryCache as its error: on such a failure TryCache returns (false, nil) and the command runs uncached, as --no-cache would", 3)
+	info := p.Info(core.PkgMain)
+	fd := p.FuncDecl(core.PkgMain, "ioDelegate.TryCache")
+	fn := "main.ioDelegate.TryCache"
+	if fd == nil || fd.Body == nil {
+		r.Und("KEY-11", fn+"|anchor", "-", "anchor-unresolved")
+		return
+	}
+	machinery := func(c *ast.CallExpr) string {
+		id := core.FuncID(core.Callee(info, c))
+		switch {
+		case id == core.PkgMain+".gtsCacheDir", id == "io/ioutil.TempFile", id == "os.CreateTemp", id == "os.UserCacheDir", id == "os.MkdirAll":
+			return id
+		case id == core.PkgCache+".Open", id == core.PkgCache+".Create", id == core.PkgCache+".CreateLevel":
+			return id
+		}
+		return ""
+	}
+	par := core.Parents(fd.Body)
+	k := 0
+	for _, c := range core.Calls(fd.Body) {
+		what := machinery(c)
+		if what == "" {
+			continue
+		}
+		k++
+		key := fmt.Sprintf("%s|%s#%d", fn, what[strings.LastIndexByte(what, '/')+1:], k)
+		// the variable that receives the error
+		as, ok := par[ast.Node(c)].(*ast.AssignStmt)
+		if !ok || len(as.Rhs) != 1 || len(as.Lhs) < 1 {
+			r.Und("KEY-11", key, p.Pos(c.Pos()), "the call's results are not assigned")
+			continue
+		}
+		errObj := core.ObjOf(info, as.Lhs[len(as.Lhs)-1])
+		if errObj == nil {
+			r.Ok("KEY-11", key, p.Pos(c.Pos()), "the error is discarded")
+			continue
+		}
+		// any return whose error operand is this variable, reachable before the variable is re-assigned
+		fl := core.NewFlow(info, fd.Body)
+		leak := token.NoPos
+		core.Scan(fl, fl.Find(as), 0, core.Stepper[int]{
+			Node: func(s int, n ast.Node) (int, bool) {
+				if n == ast.Node(as) {
+					return s, false
+				}
+				if a2, ok := n.(*ast.AssignStmt); ok {
+					for _, l := range a2.Lhs {
+						if core.ObjOf(info, l) == errObj {
+							return s, true // re-assigned: later returns carry another error
+						}
+					}
+				}
+				if rs, ok := n.(*ast.ReturnStmt); ok && len(rs.Results) == 2 {
+					if core.UsesObj(info, rs.Results[1], errObj) && leak == token.NoPos {
+						leak = rs.Pos()
+					}
+				}
+				return s, false
+			},
+		})
+		if leak != token.NoPos {
+			r.Bad("KEY-11", key, p.Pos(leak), fmt.Sprintf("the error of %s is returned by TryCache: with an unusable cache (no home directory, read-only cache location) every cached command fails with exit status 1 where --no-cache succeeds", what))
+		} else {
+			r.Ok("KEY-11", key, p.Pos(c.Pos()), "a failure degrades to an uncached run")
+		}
 	}
 }
